@@ -23,6 +23,11 @@ def overlay(base, top):
     return out
 
 
+def retag(p):
+    """same shape, every leaf replaced by a value no generator produces elsewhere"""
+    return {k: (retag(v) if isinstance(v, dict) else 77) for k, v in p.items()}
+
+
 def plain(d):
     """the same dataset definition without pre-set / default options"""
     return {k: v for k, v in d.items() if k not in ("options", "default_options")}
@@ -57,7 +62,19 @@ def cases(rng):
         env[n + 2] = dict(derived=n, how="with_default_options", preset=P2)
         env[n + 3] = plain(env[i])
         env[n + 3] = dict(env[n + 3])                                  # plain copy (own cache)
-        scn = dict(base, env=env, exprs=[("dataset", n), ("dataset", n + 1), ("dataset", n + 2), ("dataset", n + 3)])
+        P3 = retag(P2)                                                  # same keys as P2, other values
+        env[n + 4] = dict(derived=n, how="with_default_options", preset=P3)
+        env[n + 5] = dict(derived=n, how="with_options", preset=P3)
+        scn = dict(base, env=env, exprs=[("dataset", n), ("dataset", n + 1), ("dataset", n + 2), ("dataset", n + 3),
+                                         ("dataset", n + 4), ("dataset", n + 5)])
+        # siblings derived from one dataset share its cache: evaluated one after the other on ONE long-lived
+        # graph under the same caller options, each must still see its own layer
+        for o in rng.sample(pool, min(2, len(pool))):
+            seq = [(2, overlay(overlay(overlay(D, P2), o), P)), (4, overlay(overlay(overlay(D, P3), o), P)),
+                   (0, overlay(overlay(D, o), P)), (1, overlay(overlay(D, o), overlay(P, P2))),
+                   (5, overlay(overlay(D, o), overlay(P, P3))), (2, overlay(overlay(overlay(D, P2), o), P))]
+            rng.shuffle(seq)
+            out.append(dict(kind="siblings sharing one cache (history)", scn=scn, o=o, seq=seq, rhs=3))
         for o in rng.sample(pool, min(3, len(pool))):
             out.append(dict(kind="dataset options/default_options", scn=scn, o=o, eff=overlay(overlay(D, o), P), lhs=0, rhs=3))
             out.append(dict(kind="with_options derivative", scn=scn, o=o, eff=overlay(overlay(D, o), overlay(P, P2)), lhs=1, rhs=3))
@@ -74,6 +91,21 @@ def run(ctx):
         cs, base, pool = cases(rng)
         for c in cs:
             scn = c["scn"]
+            if "seq" in c:
+                raws = []
+                lines = core.run_impl(dict(scn, ops=[("evaluate", i, False, False, c["o"]) for i, _ in c["seq"]]), raw_out=raws)
+                for j, ((i, eff), line) in enumerate(zip(c["seq"], lines)):
+                    b = cp.fresh_eval(scn, c["rhs"], eff, method="evaluate", disabled=False, raw=True)
+                    checks += 1
+                    kinds[c["kind"]] = kinds.get(c["kind"], 0) + 1
+                    if not cp.same_outcome(line, raws[j], b[0], b[1]):
+                        violations.append(dict(desc="siblings derived from one dataset (shared cache), evaluated one after the other under the same caller "
+                                                    "options: a derivative does not evaluate like the plain object under ITS overlaid dictionary",
+                                               position=j, lhs=cp.outcome(line), rhs=cp.outcome(b[0]), options=repr(c["o"]), overlaid=repr(eff),
+                                               sequence=repr([i for i, _ in c["seq"]]), finding=None,
+                                               scenario_repr=cp.dump_scn(dict(scn, ops=[("evaluate", i, False, False, c["o"]) for i, _ in c["seq"]]))))
+                        break
+                continue
             for meth in ("evaluate", "validate"):
                 raws = []
                 a = cp.fresh_eval(scn, c["lhs"], c["o"], method=meth, disabled=False, raw=True)
